@@ -127,6 +127,11 @@ func (s *State) assume(t *Term) {
 	if t.IsFalse() {
 		s.Dead = true
 	}
+	if t.Op == "and" {
+		// conjuncts are kept separately so that literal and `x == constant` facts are visible to propagation
+		s.PC = append(s.PC, t.Args...)
+		return
+	}
 	s.PC = append(s.PC, t)
 }
 
